@@ -141,7 +141,7 @@ structure Memo where
   seen : Std.HashSet Key := {}
   bestItem : Nat := 0
   bestFrames : Nat := 0
-  fuel : Nat := 400000
+  fuel : Nat := 60000
 
 /-- depth-first search.  `bar`: the previous script item asked for a settle, so the model must be
 stable before the next item; `clean`: the harness is winding the session down (it hands `end` to every
